@@ -278,7 +278,59 @@ func (kf *kindFlow) kindsOfValue(v ssa.Value, facts kindFacts) uint32 {
 }
 
 // refine: facts on the true/false edge of `if cond`.
+// kindPredicate: for a function of the module func(reflect.Kind) bool, the set of kinds for which it answers true
+// (evaluated by the abstract interpreter on every kind); ok is false when it is not such a function or cannot be run.
+var kindPredicateMemo = map[*ssa.Function]int64{}
+
+func kindPredicate(f *ssa.Function) (uint32, bool) {
+	if f == nil || f.Blocks == nil || len(f.Params) != 1 || f.Signature.Results().Len() != 1 || !isReflectKind(f.Params[0].Type()) || typeStr(f.Signature.Results().At(0).Type()) != "bool" {
+		return 0, false
+	}
+	if m, ok := kindPredicateMemo[f]; ok {
+		return uint32(m), m >= 0
+	}
+	in := newAbsInterp(map[string]absHook{})
+	var set uint32
+	for k := 0; k <= 26; k++ {
+		ret, pan, fail := absRun(in, f, []aval{aInt(k)})
+		b, isB := ret.(aBool)
+		if fail != "" || pan != nil || !isB {
+			kindPredicateMemo[f] = -1
+			return 0, false
+		}
+		if bool(b) {
+			set |= 1 << uint(k)
+		}
+	}
+	kindPredicateMemo[f] = int64(set)
+	return set, true
+}
+
 func (kf *kindFlow) refine(cond ssa.Value, facts kindFacts, branch bool) kindFacts {
+	// a predicate of the module over a kind: isSignedKind(k)
+	if inner, neg := normBool(cond); inner != nil {
+		if call, ok := inner.(*ssa.Call); ok && len(call.Call.Args) == 1 {
+			if m, ok := kindPredicate(call.Call.StaticCallee()); ok {
+				truth := branch != neg
+				out := facts.clone()
+				s := kf.kindSubject(call.Call.Args[0])
+				cur := kf.curKinds(call.Call.Args[0], facts)
+				if s != "" {
+					if truth {
+						cur &= m
+					} else {
+						cur &^= m
+					}
+					if cur&kAll == kAll {
+						delete(out, s)
+					} else {
+						out[s] = cur
+					}
+				}
+				return out
+			}
+		}
+	}
 	bo, ok := cond.(*ssa.BinOp)
 	if !ok || (bo.Op != token.EQL && bo.Op != token.NEQ) || !isReflectKind(bo.X.Type()) {
 		return facts
